@@ -102,6 +102,51 @@ def apply(name):
             return L(out)
 
         ml.MainLoop.input_filter = input_filter
+    elif name == "stale-partial-timer":
+        # the alarm armed for an incomplete escape sequence is not cancelled when the rest of the sequence arrives
+        from urwid.display import _raw_display_base as rb
+
+        orig = rb.Screen.parse_input
+
+        def parse_input(self, event_loop, callback, codes, wait_for_more=True):
+            self._input_timeout = None  # forgotten, not removed from the event loop
+            return orig(self, event_loop, callback, codes, wait_for_more)
+
+        rb.Screen.parse_input = parse_input
+    elif name in ("paste-focus-off-after-last-flush", "no-flush-on-stop"):
+        # the sequences that switch the modes off are handed to the output stream, but (some of them) only after the
+        # last flush of _stop(): they are still in the stream's buffer when run() is over
+        from urwid.display import _posix_raw_display as pr
+        from urwid.display import _raw_display_base as rb
+        from urwid.display import escape
+
+        if name == "no-flush-on-stop":
+            orig_restore = rb.Screen._stop_mouse_restore_buffer
+
+            def _stop_mouse_restore_buffer(self):
+                self.flush = lambda: None
+                try:
+                    orig_restore(self)
+                finally:
+                    del self.flush
+
+            rb.Screen._stop_mouse_restore_buffer = _stop_mouse_restore_buffer
+        else:
+            orig_stop = pr.Screen._stop
+
+            def _stop(self):
+                paste, focus = self.bracketed_paste_mode, self.focus_reporting
+                self.bracketed_paste_mode = self.focus_reporting = False
+                try:
+                    orig_stop(self)
+                finally:
+                    self.bracketed_paste_mode, self.focus_reporting = paste, focus
+                if focus:
+                    self.write(escape.DISABLE_FOCUS_REPORTING)
+                if paste:
+                    self.write(escape.DISABLE_BRACKETED_PASTE_MODE)
+
+            pr.Screen._stop = _stop
     else:
         raise ValueError(name)
 
@@ -121,6 +166,9 @@ EXPECT = {
     "size-forgotten-for-lone-resize-only": "C12/redraw",
     "size-forgotten-for-trailing-resize-only": "C12/redraw",
     "size-never-forgotten": "C12/redraw",
+    "stale-partial-timer": "C12/order",
+    "paste-focus-off-after-last-flush": "C12/terminal-modes",
+    "no-flush-on-stop": "C12/terminal-modes",
 }
 
 
@@ -145,6 +193,15 @@ def main():
                     for k, (ok, why, _nt) in b.judge(case, res).items():
                         if not ok:
                             red.setdefault(k, why)
+        # the real screen: escape sequences split over two reads, the loop kept running; and the screen alone
+        extra = [{"screen": "pty", "loop": lp, "pop_ups": False, "session": b.split_session(g), "inject": None, "pty": b.PTY_CFGS[g], "mutate": name}
+                 for g, lp in enumerate(("select", "asyncio"))]
+        extra += [dict(c, mutate=name) for c in b.direct_cases(True)[5::16]]
+        for case in extra:
+            res = b.run_cases([case])[0]
+            for k, (ok, why, _nt) in b.judge(case, res).items():
+                if not ok:
+                    red.setdefault(k, why)
         good = check in red
         ok_all &= good
         print(("RED  " if good else "MISSED"), name, "->", check, "|", sorted(red), "|", red.get(check, "")[:140])
